@@ -315,6 +315,8 @@ def to_seq(interp, v, kind, node=None):
     if isinstance(v, PyList):
         return tuple(v.items) if kind == 'tuple' else PyList(v.items, 'list')
     if isinstance(v, (ListIter, MapIter, ZipIter, GenObj, SDict, RangeObj, ISliceIter, STable)) or isinstance(v, SrcIter):
+        if isinstance(v, ISliceIter):
+            return drain_islice(interp, v, kind, node)
         it = get_iter(interp, v, node)
         if is_concrete_iter(it):
             items = iter_concrete(interp, it)
@@ -368,6 +370,25 @@ def sym_exhaust(it):
         for i in it.inners:
             if not isinstance(i, CountIter):
                 sym_exhaust(i)
+
+
+def drain_islice(interp, sl, kind, node=None):
+    """list(islice(it, 0, stop)): takes min(stop, remaining) elements (all of them if stop is None) and pulls no more (T2)"""
+    it = sl.inner
+    rem = it.n - it.pos
+    if sl.stop is None:
+        take = rem
+    else:
+        st = to_int(sl.stop)
+        if interp.ctx.branch(st < 0, 'islice with a negative stop'):
+            interp.raise_('ValueError', 'islice stop must be >= 0', node)
+        take = z3.If(st < rem, st, rem)
+    take = z3.simplify(take)
+    arr = smt.fresh_arr('islice')
+    j = smt.fresh_int('j')
+    emit(z3.ForAll([j], z3.Implies(z3.And(0 <= j, j < take), z3.Select(arr, j) == z3.Select(it.arr, it.pos + j))))
+    it.pos = z3.simplify(it.pos + take)
+    return Seq(arr, take, kind, 'Fresh')
 
 
 def drain(interp, it, kind, node=None):
@@ -1407,6 +1428,16 @@ def seq_method(interp, obj, attr, args, kw, node):
         return list_insert(interp, obj, args[0], args[1], node)
     if attr == 'index':
         return seq_index(interp, obj, args[0], node)
+    if attr == 'sort':
+        # T1: list.sort(key=, reverse=) leaves a permutation of the same elements, ordered by key (stable)
+        if isinstance(obj, PyList):
+            obj.go_symbolic()
+        old_arr, ln = obj.arr, obj.len
+        obj.arr = smt.fresh_arr('sorted')
+        q, w = smt.fresh_int('q'), smt.fresh_int('w')
+        emit(z3.ForAll([q], z3.Implies(z3.And(0 <= q, q < ln), z3.Exists([w], z3.And(0 <= w, w < ln, z3.Select(obj.arr, q) == z3.Select(old_arr, w))))))
+        interp.trace.append(('list.sort', obj, kw.get('key'), kw.get('reverse')))
+        return None
     if attr == 'pop' and isinstance(obj, PyList):
         try:
             return obj.items.pop(*[a for a in args])
@@ -1855,6 +1886,8 @@ def _islice(interp, args, kw, node):
         # islice(it, start, None): skips `start` elements (or fewer if the iterator ends), then the rest
         it.pos = z3.If(it.pos + bounds[0] <= it.n, it.pos + bounds[0], it.n)
         return it
+    if isinstance(it, SrcIter) and len(bounds) == 2 and bounds[0] == 0 and not (is_concrete_iter(it) and (bounds[1] is None or is_conc_int(bounds[1]))):
+        return ISliceIter(it, 0, bounds[1])       # islice(it, 0, stop) with a symbolic stop (or None)
     if is_concrete_iter(it) and all(b is None or is_conc_int(b) for b in bounds):
         import itertools as _it
         items = iter_concrete(interp, it)
